@@ -42,6 +42,8 @@ def plan(tier, seed):
 	nsh = 16 if tier == 'quick' else 48
 	tasks = [('t_roundtrip', dict(tier=tier, shard=s, nshards=nsh)) for s in range(nsh)]
 	tasks.append(('t_foreign', dict(seed=seed)))
+	for comp in ('none', 'gzip-default', 'lzf'):
+		tasks.append(('t_many', dict(comp=comp, tier=tier)))
 	return tasks
 
 
@@ -239,6 +241,57 @@ def t_roundtrip(tier, shard, nshards):
 	return sh
 
 
+def t_many(comp, tier):
+	"""Collections far above any chunk / buffer size: 3000 (thorough 20000) signatures with lengths 0..40 (k=11, uint32, values up to 4^11-1), string
+	IDs, both write paths; after loading every single index, a set of slices and index lists are compared with the in-memory list."""
+	import random
+	from gambit.kmers import KmerSpec
+	from gambit.sigs.base import SignatureArray, SignatureList, AnnotatedSignatures, SignaturesMeta, dump_signatures, load_signatures
+	sh = Shard()
+	n = 3000 if tier == 'quick' else 20000
+	rnd = random.Random(7)
+	ks = KmerSpec(11, 'ATGAC')
+	arrs = [np.array(sorted(rnd.sample(range(4 ** 11), rnd.choice([0, 0, 1, 5, 40]))), dtype='u4') for _ in range(n)]
+	ids = [f'GCF_{i:09d}.{i % 3}' for i in range(n)]
+	with fixtures.workdir('c12m') as d:
+		for container in ('array', 'list'):
+			base = SignatureArray(arrs, ks, dtype=np.dtype('u4')) if container == 'array' else SignatureList(arrs, ks, dtype=np.dtype('u4'))
+			obj = AnnotatedSignatures(base, ids, SignaturesMeta(id='many', id_attr='refseq_acc')) if container == 'list' else base
+			p = os.path.join(d, f'many-{container}.gs')
+			dump_signatures(p, obj, **COMP[comp])
+			loaded = load_signatures(p)
+			case = dict(many=True, container=container, comp=comp, n=n)
+			sh.evals += 1
+			try:
+				exp_ids = ids if container == 'list' else list(range(n))
+				got_ids = [x.item() if isinstance(x, np.generic) else x for x in loaded.ids]
+				if len(loaded) != n or got_ids != exp_ids or loaded.kmerspec != ks:
+					sh.violation('many-ids-or-length', case, n, len(loaded))
+					continue
+				bad = next((i for i in range(n) if np.asarray(loaded[i]).tolist() != arrs[i].tolist() or np.asarray(loaded[i]).dtype != np.dtype('u4')), None)
+				if bad is not None:
+					sh.violation('many-signature-differs', dict(case, index=bad), arrs[bad].tolist()[:5], np.asarray(loaded[bad]).tolist()[:5])
+					continue
+				sh.evals += n
+				for ix in (slice(None), slice(1000, 2100), slice(None, None, 7), slice(n, None, -3), slice(-1, -1500, -1), list(range(0, n, 97)) + [5, 5, n - 1, 0], np.arange(n)[::-11], np.arange(n) % 5 == 0):
+					e = model_index(arrs, ks, ix)
+					try:
+						g = as_list(loaded[ix])
+					except Exception as ex:
+						g = ('raise', type(ex).__name__)
+					sh.evals += 1
+					if e != g:
+						sh.violation('many-index', dict(case, index=repr(ix)[:60]), str(e)[:200], str(g)[:200])
+						break
+				else:
+					sh.nontrivial += 1
+					sh.count('many_roundtrips')
+			finally:
+				loaded.close()
+	sh.sample(dict(family='many', n=n, comp=comp))
+	return sh
+
+
 def foreign_files(seed):
 	import gzip
 	import h5py
@@ -326,6 +379,7 @@ def t_foreign(seed):
 def finalize(agg, tier):
 	for c in ('roundtrips', 'compressed', 'string_ids', 'top_of_uint64_range', 'foreign_refused'):
 		agg.require(c, 20)
+	agg.require('many_roundtrips', 4)
 	for e in agg.extra:
 		if 'not_judged' in e:
 			agg.coverage_extra['recorded_not_judged'] = e['not_judged']
@@ -333,6 +387,8 @@ def finalize(agg, tier):
 
 def replay(case, kind=None):
 	sh = Shard()
+	if case.get('many'):
+		return [v for v in t_many(case['comp'], 'quick').violations if v['case'].get('container') == case['container']][:1]
 	if 'file' in case:
 		return [v for v in t_foreign(int(os.environ.get('VERIF_SEED') or 0)).violations if v['case'] == case]
 	v = {n: case[n] for n in DIMS}
